@@ -201,6 +201,9 @@ func iifeCall(fn *ssa.Function) *ssa.Call {
 					}
 				case *ssa.Function:
 					if x == fn {
+						if _, isMake := in.(*ssa.MakeClosure); isMake {
+							continue // the creation of the closure value; its uses are counted through the value
+						}
 						if cl, ok := in.(*ssa.Call); ok && cl.Call.Value == ssa.Value(x) {
 							found = cl
 						}
